@@ -4,6 +4,7 @@ package pdf
 
 import (
 	"bytes"
+	"crypto/rand"
 	"io"
 
 	"seehuhn.de/go/pdf/internal/verifrt"
@@ -67,6 +68,7 @@ func Verif_C02_programs() {
 // objects, so a value can be written any number of times (with and without
 // encryption).
 func Verif_C02_caller_objects_unchanged() {
+	defer verifFixRand()()
 	v := verifVersions[1+verifrt.Choice("version", 8)]
 	opt := &WriterOptions{ID: [][]byte{[]byte("0123456789abcdef"), []byte("0123456789abcdef")}}
 	if verifrt.Choice("encrypted", 2) == 1 {
@@ -78,7 +80,13 @@ func Verif_C02_caller_objects_unchanged() {
 	if err != nil {
 		return
 	}
-	orig := verifrt.Bytes("s", 3)
+	var orig []byte
+	if opt.UserPassword != "" && v >= V1_6 {
+		// AES: data is concrete (AES of symbolic bytes is not encodable)
+		orig = [][]byte{[]byte("abc"), {0, '(', 0xff}, {}}[verifrt.Choice("fixed", 3)]
+	} else {
+		orig = verifrt.Bytes("s", 3)
+	}
 	s := String(append([]byte{}, orig...))
 	var obj Object
 	switch verifrt.Choice("position", 3) {
@@ -97,4 +105,12 @@ func Verif_C02_caller_objects_unchanged() {
 	w.GetMeta().Catalog.Pages = w.Alloc()
 	verifrt.Assert(w.Close() == nil, "Close succeeds")
 	verifrt.Cover("written twice")
+}
+
+// verifFixRand replaces crypto/rand.Reader by the harness reader (fixed bytes
+// that native replays reproduce) and returns the function that restores it.
+func verifFixRand() func() {
+	old := rand.Reader
+	rand.Reader = verifrt.RandReader{}
+	return func() { rand.Reader = old }
 }
